@@ -121,6 +121,8 @@ def _worker_loop(fn, tasks, results, per_task_timeout):
             out = ("timeout", None)
         except BaseException:  # noqa: harness-level failure, reported as such
             out = ("error", traceback.format_exc())
+        if out[0] == "ok" and isinstance(out[1], dict):
+            out[1]["_sched"] = (os.getpid(), len(done))
         if out[0] == "ok" and isinstance(out[1], dict) and out[1].get("violation"):
             # recorded schedule: should the violation not reproduce from its own history alone, the runs
             # that preceded it in this process are what a replay needs (state leaking between runs)
@@ -540,6 +542,7 @@ def check(mod, ctx, args):
     known_hits = collections.OrderedDict()
     samples = []
     digests = {}
+    sched = {}  # worker pid -> [(position, key)]: the recorded schedule
     for k in keys:
         st, val, wall = res[k]
         pb = per_batch[k[0]]
@@ -565,6 +568,8 @@ def check(mod, ctx, args):
         pb["runs"] += 1
         pb["wall_ms"] += int(wall * 1000)
         digests[k] = val["digest"]
+        if val.get("_sched"):
+            sched.setdefault(val["_sched"][0], []).append((val["_sched"][1], k))
         probes.update(val["probes"])
         faults.update(val["faults"])
         for s in val["states"]:
@@ -607,6 +612,40 @@ def check(mod, ctx, args):
         print("HARNESS: %d runs hit the per-run watchdog (inconclusive)" % agg["timeouts"])
         if agg["timeouts"] > max(2, agg["evaluations"] // 50):
             exit_code = 2
+
+    # ---- determinism self-test: a sample of runs again, in fresh interpreters,
+    # under another hash seed (DESIGN 2.2)
+    det = {"checked": 0, "mismatch": 0}
+    n_det = 0 if args.no_selftest else int(os.environ.get("VERIF_DET_SAMPLE") or cfg.get("determinism_sample", 0))
+    if n_det and digests:
+        det = determinism_sample(mod, ctx, digests, n_det)
+        if det["mismatch"]:
+            explained = 0
+            hook = getattr(mod, "from_selftest_mismatch", None)
+            if hook is not None:
+                # a property about determinism itself: the mismatch is turned into an ordinary history of that
+                # property (same run under two hash seeds / alone and after the runs that preceded it in its
+                # worker process) and judged, minimised and replayed like any other
+                where = {k2: (pid, pos) for pid, lst in sched.items() for pos, k2 in lst}
+                for ex in det["examples"]:
+                    k2 = ex[0]
+                    if not isinstance(k2, tuple) or k2 not in where:
+                        continue
+                    pid, pos = where[k2]
+                    prefix = [list(kk) for p2, kk in sorted(sched[pid]) if p2 < pos]
+                    for hist in hook(ctx, k2, prefix):
+                        try:
+                            r2 = _execute(mod, ctx, hist)
+                        except Exception:
+                            continue
+                        if r2.get("violation"):
+                            r2["history"] = hist
+                            violations.append((("selftest", len(violations)), r2))
+                            explained += 1
+                            break
+            print("%s determinism self-test: %d of %d runs changed digest in a fresh interpreter under another PYTHONHASHSEED: %s%s" % ("NOTE:" if explained and explained >= len(det["examples"]) else "HARNESS-ERROR", det["mismatch"], det["checked"], det["examples"], " (explained as violations of this property, below)" if explained else ""))
+            if not (explained and explained >= len(det["examples"])):
+                exit_code = max(exit_code, 2)
 
     # ---- violations: minimise, write replay, confirm in a fresh interpreter
     reported = []
@@ -691,16 +730,6 @@ def check(mod, ctx, args):
             # a violation that reproduces from its replay file in a fresh interpreter stands on its own,
             # whatever else went wrong in this run (harness errors are still printed above)
             exit_code = 1
-
-    # ---- determinism self-test: a sample of runs again, in fresh interpreters,
-    # under another hash seed (DESIGN 2.2)
-    det = {"checked": 0, "mismatch": 0}
-    n_det = 0 if args.no_selftest else cfg.get("determinism_sample", 0)
-    if n_det and digests:
-        det = determinism_sample(mod, ctx, digests, n_det)
-        if det["mismatch"]:
-            print("HARNESS-ERROR determinism self-test: %d of %d runs changed digest in a fresh interpreter under another PYTHONHASHSEED: %s" % (det["mismatch"], det["checked"], det["examples"]))
-            exit_code = max(exit_code, 2) if exit_code != 1 else 1
 
     # ---- vacuity guard
     vac = getattr(mod, "vacuity", None)
